@@ -1165,7 +1165,7 @@ pub fn quiet_keepalive(r: &mut Runner) {
 
 /// the implementation side of a `tcase` line: a fresh store and server (idle timeout `rx_ms`), one connection opened at
 /// instant 0; every `t:hex` is sent at instant t (ms); at the final instant everything received so far is returned with the
-/// state of the connection. A run in which the sender itself was more than 400 ms late is repeated (three times at most).
+/// state of the connection. A run in which the sender itself was more than 400 ms late is repeated (five times at most; the least late run counts).
 pub fn tcase_run(limit: u32, rx_ms: u64, now: u64, toks: &[&str]) -> String {
     use std::io::{Read, Write};
     let plan: Vec<(u64, Vec<u8>)> = toks[..toks.len() - 1].iter().map(|t| {
@@ -1174,7 +1174,8 @@ pub fn tcase_run(limit: u32, rx_ms: u64, now: u64, toks: &[&str]) -> String {
     }).collect();
     let tfin: u64 = toks[toks.len() - 1].parse().unwrap();
     let mut result = String::new();
-    for _attempt in 0..3 {
+    let mut best_late = u64::MAX;
+    for _attempt in 0..5 {
         let clock = std::sync::Arc::new(crate::sut::Clock(std::sync::atomic::AtomicU64::new(now)));
         let store: std::sync::Arc<dyn memcrs::cache::cache::Cache + Send + Sync> = std::sync::Arc::new(memcrs::memory_store::store::MemoryStore::new(clock));
         let srv = crate::net::start_server(store, limit, 8, (rx_ms / 1000) as u32);
@@ -1223,7 +1224,10 @@ pub fn tcase_run(limit: u32, rx_ms: u64, now: u64, toks: &[&str]) -> String {
             pump(&mut c, &mut got, &mut closed);
             std::thread::sleep(std::time::Duration::from_millis(5));
         }
-        result = format!("out {} {}", wire::hexd(&got), if closed { "closed" } else { "open" });
+        if late < best_late {
+            best_late = late;
+            result = format!("out {} {}", wire::hexd(&got), if closed { "closed" } else { "open" });
+        }
         if late <= 400 {
             break;
         }
